@@ -109,6 +109,39 @@ def run(ctx):
                       'the J5~0 / J5~pi discriminator is applied to the raw joint value, ignoring the J5 offset and sign convention',
                       found=found, expected='joints[J5] * sign_corrections[J5] - offsets[J5]', detail=found)
 
+    # ---- R05.7 the discriminator itself: f(x, 0.0) is true exactly when x is within the band of a multiple of 2*pi
+    # (the corrected J5 computed from a returned joint value can be any representative: offsets of a turn or more, wound joints)
+    ctx.rule('R05.7', 'the J5~0 discriminator answers true for angles within the singularity band of any multiple of 2*pi and false otherwise (abstract interpretation over cells)')
+    helpers = {prog.bodies[t['callee']['resolved']].path for bi, t in disc}
+    for hp in sorted(helpers):
+        hb = prog.bodies[hp]
+        ctx.fn(hb)
+        util.pi_constants(ctx, 'R05.6', [hb])
+        nd = 0
+        for k in (-2, -1, 0, 1, 2):
+            for side in (1, -1):
+                for name, lo, hi, want in (('in', 0.05 * THR, 0.9 * THR, True), ('out', 1.2 * THR, 4 * THR, False), ('far', 0.05, math.pi - 0.05, False)):
+                    a, b2 = 2 * k * math.pi + side * lo, 2 * k * math.pi + side * hi
+                    cell = (min(a, b2), max(a, b2))
+                    I = Interp(prog, {})
+                    try:
+                        outs = I.run(hp, [Iv(*cell), Iv(0.0)])
+                    except absint.Undecided:
+                        continue
+                    except absint.Unsupported as e:
+                        raise MachineryError('discriminator could not be interpreted: %s' % e)
+                    vals = {(o.ret.res if isinstance(o.ret, absint.Cmp) else o.ret) for o in outs}
+                    if None in vals:
+                        continue          # indefinite over the cell: not decided
+                    nd += 1
+                    key = 'discriminator/k=%d/%s%s' % (k, '+' if side > 0 else '-', name)
+                    got = vals == {True} if want else vals == {False}
+                    ctx.check(got, 'R05.7', key, hb.where(0), hb.path,
+                              'for every angle in [%.6g, %.6g] (%s the band around %d*2*pi) the discriminator answers %s, expected %s: a wrist-singular '
+                              'posture is then recovered with the wrong J4/J6 combination' % (cell[0], cell[1], 'inside' if want else 'outside', k, sorted(map(str, vals)), want),
+                              found=sorted(map(str, vals)), expected=str(want), detail=str(sorted(map(str, vals))))
+        ctx.floor('R05.7 discriminator cells', nd, 20)
+
     # ---- R05.4 recovery structure
     # the recovered candidate: a named [f64; 6] local with element writes at constant slots 3 and 5
     now_l = []
